@@ -291,6 +291,82 @@ def gen_hexital_life(rng, size):
     return gen_hexital(rng, size, life_ok=True)
 
 
+DICT_FIELDS = {"BBANDS": ["BBL", "BBM", "BBU"], "KC": ["lower", "band", "upper"], "DONCHIAN": ["DCL", "DCM", "DCU"], "HL": ["low", "high"],
+               "SUPERTREND": ["trend", "direction", "long", "short"], "MACD": ["MACD", "signal", "histogram"],
+               "STOCH": ["stoch", "k", "d"], "AROON": ["AROONU", "AROOND", "AROONOSC"], "ADX": ["ADX", "DM_Plus", "DM_Neg"]}
+
+
+def _probe_name(spec):
+    return specs.build_indicator({**spec, "fill": False, "ha": False, "life": None}, []).name
+
+
+@component("access")
+def gen_access(rng, size):
+    """every read accessor of an indicator object at every index, interleaved with appends"""
+    if rng.random() < 0.35:
+        spec = rng.choice([
+            {"kind": "COUNTER", "input": "positive", "cv": rng.choice([True, False]), "round": 4},
+            {"kind": "COUNTER", "input": "volume", "cv": 0, "round": 4},
+            specs.gen_amorph_spec(rng, ["positive", "negative", "rising", "doji", "highestbar"]),
+            {"kind": "OBV", "round": 4},
+        ])
+    else:
+        spec = specs.gen_spec(rng)
+    n = rng.randint(0, min(size, 30))
+    stream, meta = gen.gen_stream(rng, n, price_style=rng.choice(["walk", "zerovol", "flat", "ints", "jumpy"]))
+    sched, shape = gen.gen_schedule(rng, n)
+    parts = gen.split_by(stream, sched)
+    name = _probe_name(spec)
+    fields = DICT_FIELDS.get(spec["kind"], [])
+    lines = [f"ind {specs.spec_params(spec)} " + wire.enc_candles(parts[0]), "icalc"]
+
+    def probes(count):
+        out = ["iacc name", "iacc active", "iacc has_reading", "iacc reading", "iacc prev_reading", "iacc as_list", "iacc reading_count"]
+        nm = name + "." + rng.choice(fields) if fields and rng.random() < 0.6 else None
+        q = f" name={nm}" if nm else ""
+        out += [f"iacc as_list{q}", f"iacc reading_count{q}", f"iacc prev_reading{q}"]
+        for i in range(-count - 1, count + 1):
+            out.append(f"iacc reading idx={i}{q}")
+        for _ in range(3):
+            out.append(f"iacc reading_period period={rng.randint(1, 8)} name={rng.choice(['close', name])} idx={rng.randint(-2, max(count, 1))}")
+            out.append(f"iacc candles_sum length={rng.randint(1, 8)} name={rng.choice(['close', 'volume', name])} idx={rng.randint(-2, max(count, 1))}")
+        return out
+
+    consumed = len(parts[0])
+    lines += probes(consumed) + ["isnap"]
+    for p in parts[1:]:
+        lines.append("iapp " + wire.enc_candles(p))
+        consumed += len(p)
+        if rng.random() < 0.5:
+            lines += probes(consumed)
+        lines.append("isnap")
+    meta.update({"kind": spec["kind"], "schedule": shape, "n": n})
+    return lines, meta
+
+
+@component("hexital.access")
+def gen_hexital_access(rng, size):
+    lines, meta = gen_hexital(rng, min(size, 30), programs=False)
+    # names of the members, from the real constructors (also compared through the `ok name=` lines)
+    names = []
+    for l in lines:
+        if l.startswith("hmember "):
+            ps = dict(t.split("=", 1) for t in l.split()[1:] if "=" in t)
+            ps = {k: (None if v == "-" else v) for k, v in ps.items()}
+            try:
+                names.append(_probe_name(specs.params_to_spec(ps)))
+            except Exception:  # noqa
+                pass
+    out = []
+    for l in lines:
+        out.append(l)
+        if l == "hsnap" and names and rng.random() < 0.6:
+            nm = rng.choice(names + ["Nope_1"])
+            out += [f"hacc has_reading name={nm}", f"hacc reading name={nm}", f"hacc prev_reading name={nm}", f"hacc as_list name={nm}",
+                    f"hacc reading name={nm} idx={rng.randint(-5, 5)}", "hacc names"]
+    return out, meta
+
+
 def _rand_reading(rng):
     k = rng.random()
     if k < 0.2:
@@ -345,6 +421,35 @@ for _f in specs.ANALYSIS:
 # running
 
 
+def resolve_component(name):
+    """static components, plus dynamic groups: `ind:SMA,EMA` / `ind:ALL` / `ind.life:ALL` (lifespan forced) /
+    `amorph:ALL` / `analysis:rising,falling` pick one member of the group per case"""
+    if name in COMPONENTS:
+        return COMPONENTS[name]
+    fam, _, members = name.partition(":")
+    if fam in ("ind", "ind.life"):
+        kinds = specs.ALL_KINDS if members == "ALL" else members.split(",")
+
+        def genf(rng, size):
+            spec = specs.gen_spec(rng, [rng.choice(kinds)])
+            lines, meta = _ind_case(rng, size, spec, programs=rng.random() < 0.3)
+            return lines, meta
+
+        def genf_life(rng, size):
+            spec = specs.gen_spec(rng, [rng.choice(kinds)])
+            spec["life"] = rng.choice([60, 300, 3600]) * rng.randint(3, 40)
+            return _ind_case(rng, size, spec, programs=False)
+
+        return (genf_life if fam == "ind.life" else genf), "full"
+    if fam == "amorph":
+        fns = AMORPH_FNS if members == "ALL" else members.split(",")
+        return (lambda rng, size: _mk_amorph_component(rng.choice(fns))(rng, size)), "full"
+    if fam == "analysis":
+        fns = list(specs.ANALYSIS) if members == "ALL" else members.split(",")
+        return (lambda rng, size: _mk_analysis_component(rng.choice(fns))(rng, size)), "full"
+    raise KeyError(name)
+
+
 def split_on_reset(lines):
     out, cur = [], []
     for l in lines:
@@ -374,7 +479,7 @@ def _worker(args):
         time.tzset()
     from . import impl, model
 
-    genf, vname = COMPONENTS[comp]
+    genf, vname = resolve_component(comp)
     vf = VIEWS[vname]
     cases = []
     all_lines = []
@@ -400,7 +505,7 @@ def _worker(args):
                     break
             if diff is None:
                 diff = {"line": min(len(a), len(b)), "impl": f"<{len(a)} lines>", "model": f"<{len(b)} lines>"}
-        errs = sorted({x for x in io if x.startswith("err ")})
+        errs = sorted({x for x in io if x.startswith("err ") or x.startswith("aerr ")})
         nontrivial = len(lines) > 2 and any(x.startswith("C ") or x[:2] in ("i:", "f:", "b:") or x.isdigit() for x in io)
         res.append({"case": i, "meta": meta, "diff": diff, "errors": errs, "nontrivial": nontrivial,
                     "hash": hash(tuple(lines)), "nlines": len(lines)})
@@ -440,5 +545,5 @@ def run_component(comp, seed, n_cases, size, workers=None, tz=None):
 
 
 def regen_case(comp, seed, idx, size):
-    genf, vname = COMPONENTS[comp]
+    genf, vname = resolve_component(comp)
     return genf(gen.rng_for(seed, comp, idx), size)
